@@ -412,6 +412,9 @@ def r02h(ctx):
             'MPSModule': Token('cls:MPSModule'), 'MPSPerLayerQtz': Token('cls:MPSPerLayerQtz'),
             'list': list,
         }
+        cp = Obj('pkg')
+        cp.attrs['deepcopy'] = cp.attrs['copy'] = lambda v: Obj('copy-of-' + getattr(v, 'cls_name', '?'))
+        glob['copy'] = cp
         for st in fn.module.tree.body:
             if isinstance(st, ast.FunctionDef) and st is not fn.node and st.name not in glob:
                 glob[st.name] = Token('fn:' + st.name,
